@@ -27,8 +27,10 @@ TRUSTED = [
     "hand models models/{Nnf,Aig,Partition,Qelim,TimesDist}.v of pysmt/rewritings.py and pysmt/solvers/qelim.py, "
     "tied to the repository under test by this run's correspondence (counts below); models/C10Local.v are local stand-ins for "
     "FormulaManager constructors and the symbol->term MGSubstituter (same definitions as models/Ctors.v on well-formed nodes)",
-    "prenex_normal_form and propagate_toplevel are NOT modelled in Coq (models/PropTop.v covers only the final substitute-and-reassert "
-    "step, for the refutation witness): for them this check is the SEARCH oracle only",
+    "models/Prenex.v (PrenexNormalizer) is compared with the implementation up to a consistent renaming of the fresh FV-names "
+    "(Prenex.canon) and up to the order of quantified variables; inputs without array theory (a Boolean array read makes the walker raise)",
+    "propagate_toplevel is NOT modelled in Coq beyond its final substitute-and-reassert step (models/PropTop.v, for the refutation "
+    "witness): for it this check is the SEARCH oracle only",
     "the memoised DAG walk is replaced by structural recursion (licensed by DagWalk_proofs.walk_refines, C20/C14)",
     "tocoq.py (FNode -> Gallina literal); refeval.py (independent evaluator) for the SEARCH oracle only",
 ]
@@ -290,10 +292,8 @@ def run_nnf(b):
                 continue
             b.check_equiv(f, out, "nnf(f) does not have the value of f", "pysmt.rewritings.nnf(<input>)")
             if not nnf_shape(out):
-                if has_negated_bool_ite(f):
-                    key = "nnf-shape:negated-boolean-ite"
-                else:
-                    key = "nnf-shape:%s" % f.serialize()[:200]
+                # (regression: before /repo commit 777db40 every input with a Boolean ITE under negative polarity failed here)
+                key = "nnf-shape:negated-boolean-ite" if has_negated_bool_ite(f) else "nnf-shape:%s" % f.serialize()[:200]
                 b.chk.violation({"kind": "input", "what": "nnf(f) is not in negation normal form (a negation above a non-atom, or ->, <->, ite left)",
                                  "input": f.serialize(), "output": out.serialize(), "repro": "pysmt.rewritings.nnf(<input>)",
                                  "expected": "negations only on atoms"}, key=key)
@@ -469,6 +469,7 @@ def run_prenex(b):
             f = fixed[i] if i < len(fixed) else sg.gen(b.rnd.randint(1, 4))
             if tree_size(f) > 300:
                 continue
+            guess = m._fresh_guess
             try:
                 out = prenex_normal_form(f, env)
             except TypeError:
@@ -477,7 +478,7 @@ def run_prenex(b):
             if tree_size(out) > 1500 or sum(len(n.quantifier_vars()) for n in tocoq.topo([out]) if n.is_quantifier()) > 7:
                 b.stats["skipped_large"] = b.stats.get("skipped_large", 0) + 1     # exact quantifier evaluation would take minutes
                 continue
-            b.cases.append(([f, out], (lambda names, f=f, out=out: "(%s, %s)" % (names[f], names[out]))))
+            b.cases.append(([f, out], (lambda names, f=f, out=out, guess=guess: "(%d%%nat, %s, %s)" % (guess, names[f], names[out]))))
             b.meta.append(f.serialize()[:400])
             b.chk.count(("prenex", tocoq.skey(f)), nontrivial=out is not f)
             b.check_equiv(f, out, "prenex_normal_form(f) does not have the value of f", "pysmt.rewritings.prenex_normal_form(<input>)")
@@ -556,7 +557,10 @@ def run_proptop(b):
     return PROPTOP_COQ
 
 
-PRENEX_COQ = None
+PRENEX_COQ = ("From PySMT.models Require Import C10Local Prenex.", "nat * term * term",
+              "Definition ok (c : nat * term * term) : bool :=\n"
+              "  let '(n, t, o) := c in\n"
+              "  match prenex n t with Some r => ac_eqb (canon r) (canon o) && pq_frag t | None => false end.\n")
 PROPTOP_COQ = None
 
 BATCHES = [("nnf", run_nnf), ("aig", run_aig), ("partition", run_partition), ("qelim", run_qelim), ("timesdist", run_timesdist),
